@@ -201,7 +201,7 @@ def main():
         print("jsonschema not importable; wrote MANIFEST.json unvalidated")
 
 
-CLI_IDS = {"C09", "C15", "C34", "C35", "C36", "C40", "C41", "C42", "C44", "C45"}
+CLI_IDS = {"C15", "C34", "C35", "C36", "C40", "C41", "C42", "C44", "C45"}
 
 if __name__ == "__main__":
     sys.exit(main())
